@@ -1,3 +1,12 @@
 import Uflow.Props.C17
 open Uflow.Props.C17
 #print axioms C17_u32_lt
+#print axioms C17_inv
+#print axioms C17_syn_adds_only_below
+#print axioms C17_frame_counts
+#print axioms C17_hsAck_counts
+#print axioms C17_other_ops_counts
+#print axioms C17_refuse
+#print axioms C17_refuse_frame
+#print axioms C17_release
+#print axioms C17_release_drop
